@@ -1,5 +1,5 @@
 """C18 - invalid children are reported, never returned (PRF answers enumerated at every call of real histories)."""
-from ..core import V, R, HarnessError
+from ..core import V, R, HarnessError, project
 from ..ref import hd, secp
 from .. import answers, hdscen
 
@@ -74,7 +74,7 @@ def _execute(case):
             oc = "violation"
             viols.append(V("%s:%s:%s:valid-refused" % (P, seam, last),
                            "%s with valid PRF answer %s raised %s" % (seam, label, got[1]), got[1], str(exp[1])[:200]))
-        elif got[1] != exp[1]:
+        elif project(got[1], exp[1]) != project(exp[1], exp[1]):
             oc = "violation"
             viols.append(V("%s:%s:%s:wrong-result" % (P, seam, last),
                            "%s with valid PRF answer %s differs from the reference" % (seam, label), str(got[1])[:300], str(exp[1])[:300]))
